@@ -342,6 +342,8 @@ pub struct ExecStats {
 }
 
 pub struct RunOut {
+    /// task polled at each poll, in order (the interleaving)
+    pub poll_trace: Vec<u8>,
     pub log: Vec<Ev>,
     pub ends: Vec<TaskEnd>,
     pub tstats: Vec<TaskStat>,
@@ -372,6 +374,7 @@ pub fn drive<H: Host>(scn: &Scenario, world: &Arc<World>, host: &mut H, inputs: 
     let mut lost = None;
     let mut budget_exhausted = false;
     let mut last_polled: Option<usize> = None;
+    let mut poll_trace: Vec<u8> = Vec::new();
 
     // cancellation points by task
     let mut cancel_after: Vec<Option<u32>> = vec![None; n];
@@ -538,6 +541,7 @@ pub fn drive<H: Host>(scn: &Scenario, world: &Arc<World>, host: &mut H, inputs: 
         }
         tstats[t].polls += 1;
         stats.polls += 1;
+        poll_trace.push(t as u8);
         world.set_current(Some((t, scn.tasks[t].tag)));
         let out = host.poll(t, worker, &wakers[t]);
         world.set_current(None);
@@ -578,6 +582,7 @@ pub fn drive<H: Host>(scn: &Scenario, world: &Arc<World>, host: &mut H, inputs: 
     stats.stale_wakes = board.stale_wakes.load(Ordering::SeqCst);
     stats.vtime_ns = world.now();
     RunOut {
+        poll_trace,
         log: world.take_log(),
         ends,
         tstats,
